@@ -17,7 +17,8 @@ EXTENDS Integers, Sequences, FiniteSets, TLC
 CONSTANTS Proto, Mux, Runner, MaxOps, LeakMainOnMux, LeakPluginBrokered
 Ops == {"dispense", "broker_h2p", "broker_p2h", "stdio", "accept_during_shutdown", "unmatched_dials", "unmatched_accept",
         "broker_h2p_reuse", "broker_p2h_reuse",     \* _reuse: one brokered id used for several establishments in a row
-        "raw_accept_reuse"}                         \* the host application accepts an id twice itself and never closes the listeners
+        "raw_accept_reuse",                         \* the host application accepts an id twice itself and never closes the listeners
+        "raw_accept_closed"}                        \* it accepts two ids itself, closes the first listener when done with it, leaves the second
 
 VARIABLES res, phase, nops, nb
 rv == <<res, phase, nops, nb>>
@@ -37,6 +38,11 @@ Op(o) == /\ phase = "up" /\ nops < MaxOps /\ nops' = nops + 1
                                       THEN {<<"brokered_socket", IF o = "broker_h2p_reuse" THEN "plugin" ELSE "host", nb + 1>>,
                                             <<"brokered_socket", IF o = "broker_h2p_reuse" THEN "plugin" ELSE "host", nb + 2>>}
                                       ELSE {}) \cup {<<"broker_goroutines", "both", nb + 1>>, <<"broker_goroutines", "both", nb + 2>>}
+            ELSE IF o = "raw_accept_closed"
+            THEN \* the first listener's socket went when its owner closed it; the second is still there at the Kill
+                 /\ nb' = nb + 2
+                 /\ res' = res \cup (IF Proto = "grpc" /\ ~Mux THEN {<<"brokered_socket", "host", nb + 2>>} ELSE {})
+                               \cup {<<"broker_goroutines", "both", nb + 1>>, <<"broker_goroutines", "both", nb + 2>>}
             ELSE IF o \in {"broker_h2p", "broker_p2h", "accept_during_shutdown"} /\ Proto = "grpc" /\ ~Mux
             THEN \* plain gRPC: the accepting side opens a listener with its own socket file
                  /\ nb' = nb + 1
